@@ -6,6 +6,7 @@ import sys
 
 ROOT = os.path.dirname(os.path.dirname(os.path.abspath(__file__)))
 os.environ.setdefault("PYTHONPATH", "/repo/src")
+HOLD = {}
 NOT_BUILT = "no check is committed for this property yet (framework under construction; planned design in DESIGN.md section 6)"
 
 
@@ -24,6 +25,9 @@ def main():
             for node in ast.parse(src).body:
                 if isinstance(node, ast.Assign) and getattr(node.targets[0], "id", None) == "CLAIM":
                     claim = ast.literal_eval(node.value)
+        if pid in HOLD:
+            na.append({"property_id": pid, "reason": HOLD[pid]})
+            continue
         if claim is None:
             na.append({"property_id": pid, "reason": NOT_BUILT})
             continue
